@@ -310,7 +310,7 @@ func (r *Recorder) Flush() {
 	}
 	r.flushed = true
 	dir := os.Getenv("VERIF_EVDIR")
-	if dir == "" {
+	if dir == "" || (r.evaluations == 0 && r.violations == 0) {
 		return
 	}
 	os.MkdirAll(dir, 0o755)
